@@ -1820,7 +1820,11 @@ private:
     else
     {
       IORA_LOG_DEBUG("[EPOLL-EVENT] Not in TLS handshake, checking EPOLLOUT for connect callback");
-      if (events & EPOLLOUT)
+      // A pending connect can also surface as EPOLLIN without EPOLLOUT: an early
+      // send() on the id returned by connect() may have filled the socket buffer
+      // as soon as the connection was established, while the peer's first bytes
+      // are already readable. The connect callback must still precede the data.
+      if ((events & EPOLLOUT) || (s->connectPending && (events & EPOLLIN)))
       {
         IORA_LOG_DEBUG("[EPOLL-EVENT] EPOLLOUT is set, connectPending=" << s->connectPending);
         // P2 fix: Only handle non-TLS connections here; TLS goes through handshake state machine
